@@ -259,8 +259,10 @@ impl OutItem {
 }
 
 fn compile_error_of(m: &syn::ItemMacro) -> Option<String> {
-    let last = m.mac.path.segments.last()?;
-    if last.ident != "compile_error" {
+    // only the absolute spelling counts: an unqualified `compile_error!` resolves to whatever macro of that name the
+    // user has in scope, and the error (or the dump) silently disappears
+    let segs: Vec<String> = m.mac.path.segments.iter().map(|s| s.ident.to_string()).collect();
+    if m.mac.path.leading_colon.is_none() || segs != ["core", "compile_error"] {
         return None;
     }
     let lit: syn::LitStr = syn::parse2(m.mac.tokens.clone()).ok()?;
